@@ -604,7 +604,7 @@ def expand(template_path, repo, vacuity=False):
                 # obligations undecided); the rest of the unit is still verified against its contract
                 del unit.segs[mark:]
                 del unit.functions[nf:], unit.edits[ne:], unit.macro_rewrites[nm:], unit.clauses[nc:]
-                _emit_fn(unit, repo, rel, scope, name, opts, flags + ["stub"], contract, [], False, template_path)
+                _emit_fn(unit, repo, rel, scope, name, opts, flags + ["stub"], contract, [d for d in directives if d[0] == "SIG"], False, template_path)
                 qual_ = (scope + "::" if scope != "free" else "") + name
                 unit.extract_failed[qual_] = str(e)
                 continue
